@@ -97,6 +97,16 @@ class Taint:
                 targs = [i for i, a in enumerate(t['args']) if any(l in T for l in operand_locals(a))]
                 fn2 = t['call'].get('fn')
                 if targs and (fn2 is None or self.facts.body(fn2) is None):
+                    # a closure handed to a combinator (opt.and_then(|n| n.checked_add(k))) is part of the computation: its body is
+                    # checked with every parameter and capture tainted
+                    for a in t['args']:
+                        for l_ in operand_locals(a):
+                            sd_ = b.single_def(l_)
+                            if sd_ is not None and sd_[2] == 'assign' and isinstance(sd_[3]['rv'].get('aggregate'), dict) and 'closure' in sd_[3]['rv']['aggregate']:
+                                cn_ = sd_[3]['rv']['aggregate']['closure']
+                                cb_ = self.facts.body(cn_)
+                                if cb_ is not None:
+                                    self.analyse(cn_, list(range(1, cb_.arg_count + 1)))
                     try:
                         ok_ext = self.allowed(fn2 or '', t['call'].get('generic') or [])
                     except TypeError:
